@@ -679,6 +679,17 @@ def ref_op(op):
     raise ValueError(kind)
 
 
+def _fresh_process(op):
+    """the answer of a new interpreter that has seen no other call (module-level state empty)"""
+    try:
+        env = dict(os.environ, PYTHONPATH=REPO + ":" + os.path.join(VERIF, "harness"))
+        pr = _subprocess.run([PY, "-W", "ignore", os.path.join(VERIF, "harness", "c01_worker.py")], input=_json.dumps([op]).encode(),
+                             stdout=_subprocess.PIPE, stderr=_subprocess.PIPE, env=env, timeout=300)
+        return _json.loads(pr.stdout)["results"][0]
+    except Exception as e:
+        return "?" + type(e).__name__
+
+
 def chk_history(ops):
     """history independence: every call of the sequence answers as the reference does, and as a fresh object does"""
     for i, op in enumerate(ops):
@@ -687,9 +698,9 @@ def chk_history(ops):
             continue                      # no requirement / would not terminate: not called
         got = run_op(op)
         if want is not None and got != want:
-            alone = run_op(op, fresh=True) if op["op"] != "gen_k" else None
-            return {"kind": "result-depends-on-history" if i > 0 else "differs-from-reference", "index": i, "op": op,
-                    "impl": got, "reference": want, "fresh_object": alone, "history": ops[:i]}
+            alone = run_op(op, fresh=True) if op["op"] != "gen_k" else _fresh_process(op)
+            return {"kind": "result-depends-on-history" if (i > 0 and alone == want) else "differs-from-reference", "index": i, "op": op,
+                    "impl": got, "reference": want, "fresh_object_or_process": alone, "history": ops[:i]}
     last = ops[-1]
     if last["op"] != "gen_k" and not (last["op"] == "sign" and ref_op(last) is None):
         a, b = run_op(last), run_op(last, fresh=True)
